@@ -209,7 +209,47 @@ def rule_gate_name(ctx):
                       "the vDSO address is auxv.get_linux_gate_address()", "vDSO address comes from %s" % show(g)[:100])
 
 
+def rule_deleted_suffix(ctx):
+    """'same name' in the merge rule is equality of the names aggregate() stores, i.e. of sanitize_path(name): the kernel appends
+    exactly ONE ' (deleted)' marker to the path of an unlinked file, so exactly one is removed — removing more (or anything else)
+    makes two different files compare equal and lets their lines merge"""
+    R = "C13/deleted-suffix"
+    b = ctx.body(R, "linux::maps_reader::sanitize_path")
+    if b is None:
+        return
+    o = Origin(b)
+    from engine.summ import return_origins
+    ALLOWED = {"deref", "as_bytes", "as_os_str", "strip_suffix", "to_owned", "to_vec", "from_vec", "into_vec", "from", "into", "clone", "as_ref", "borrow",
+               "as_encoded_bytes", "from_encoded_bytes_unchecked", "to_os_string", "to_str", "from_bytes", "len", "ends_with", "truncate", "split_at", "new"}
+    calls = [(bi, (CalleeView(t["callee"]).short or "?").split("::")[-1]) for bi, t in b.calls()]
+    extra = sorted({n for _, n in calls if n not in ALLOWED and not n.startswith("drop")})
+    strips = [bi for bi, n in calls if n == "strip_suffix"]
+    ctx.check(not extra and len(strips) == 1 and not b.loops(), R, "strips-one-suffix", b.where(strips[0]) if strips else b.where(0),
+              "sanitize_path removes the marker with a single strip_suffix (at most one occurrence, nothing else is altered)",
+              "sanitize_path does not remove exactly one trailing marker: %s" % (("calls " + ", ".join(extra)) if extra else ("%d strip_suffix call(s)%s" % (len(strips), ", inside a loop" if b.loops() else ""))))
+    for bi in strips:
+        a = o.call_args(bi)
+        suf = strip(a[1])
+        txt = None
+        for q in walk(suf):
+            if q[0] in ("str", "bytes") and isinstance(q[1], (str, bytes)):
+                txt = q[1]
+            if q[0] == "named" and "DELETED_SUFFIX" in str(q[1]):
+                txt = txt or "named"
+        cst = [c for c in ctx.prog.j.get("statics", [])]
+        okc = txt is not None
+        ctx.check(okc, R, "marker-constant", b.where(bi), "the stripped suffix is the DELETED_SUFFIX constant", "the stripped suffix is %s" % show(suf)[:80], nontrivial=False)
+        subj = strip(a[0])
+        ctx.check(any(q == ("param", 1) for q in walk(subj)), R, "strips-the-name", b.where(bi), "the suffix is stripped from the mapped path itself", "strip_suffix is applied to %s" % show(subj)[:80])
+    # aggregate() stores the sanitised name for file mappings
+    ag = ctx.body(R, "linux::maps_reader::MappingInfo::aggregate")
+    if ag is not None:
+        n = len(list(ag.calls(lambda c: (c.short or "").endswith("maps_reader::sanitize_path"))))
+        ctx.floor(R, "sanitize_path call in aggregate", n, 1)
+
+
 def run(ctx):
     rule_merges(ctx)
     rule_one_outcome(ctx)
     rule_gate_name(ctx)
+    rule_deleted_suffix(ctx)
